@@ -67,7 +67,7 @@ const c17deadline = 3 * time.Second
 
 var c17base = time.Unix(1700000000, 0)
 
-func c17time(t int) time.Time { return c17base.Add(time.Duration(t) * time.Millisecond) }
+func c17time(t int) time.Time   { return c17base.Add(time.Duration(t) * time.Millisecond) }
 func c17untime(t time.Time) int { return int(t.Sub(c17base) / time.Millisecond) }
 
 type c17ref struct {
@@ -717,7 +717,7 @@ func (c *c17carrier) Close() error {
 	})
 	return nil
 }
-func (c *c17carrier) LocalAddr() net.Addr                { return c17addr(0) }
+func (c *c17carrier) LocalAddr() net.Addr              { return c17addr(0) }
 func (c *c17carrier) SetDeadline(time.Time) error      { return nil }
 func (c *c17carrier) SetReadDeadline(time.Time) error  { return nil }
 func (c *c17carrier) SetWriteDeadline(time.Time) error { return nil }
@@ -1151,11 +1151,80 @@ func c17RealClock(r *vh.Run) {
 	}
 }
 
+// c17AfterClose: the retention clauses do not end with Close of the queue connection — a queue held by a carrier
+// goroutine when the connection is closed, and one obtained afterwards, are still discarded and closed by the
+// sweep after their timeout (the carrier goroutines end on that).
+func c17AfterClose(r *vh.Run) {
+	timeout := 300 * time.Millisecond
+	c := NewQueuePacketConn(c17addr(1), timeout)
+	before := c.OutgoingQueue(c17addr(7))
+	c.Close()
+	after := c.OutgoingQueue(c17addr(8))
+	t0 := time.Now()
+	desc := fmt.Sprintf("QueuePacketConn timeout %v: queue obtained before Close, queue obtained after Close, no further use", timeout)
+	r.Case("clientmap-realclock/after-close", desc, true)
+	deadline := time.After(timeout*3/2 + timeout)
+	for name, q := range map[string]<-chan []byte{"before": before, "after": after} {
+		select {
+		case _, ok := <-q:
+			if ok {
+				r.OracleFail("clientmap-realclock-retention", desc, "queue obtained "+name+" Close delivered a packet nobody sent", "")
+			}
+		case <-deadline:
+			r.OracleFail("clientmap-realclock-retention", desc, fmt.Sprintf("queue obtained %s Close still open %v after it was last seen", name, time.Since(t0).Round(10*time.Millisecond)),
+				"an idle client's queue is discarded and closed by the next sweep after its timeout, also after the connection was closed")
+			return
+		}
+	}
+}
+
+// c17ManyExpire: populations far larger than the generated sequences use — every record that has been idle for the
+// timeout is gone after one sweep, and its queue closed, however many expire together.
+func c17ManyExpire(r *vh.Run) {
+	for _, n := range []int{1, 17, 300, 700, 3000} {
+		inner := &clientMapInner{byAge: make([]*clientRecord, 0), byAddr: make(map[net.Addr]int)}
+		t0 := c17time(0)
+		var qs []chan []byte
+		for i := 0; i < n; i++ {
+			qs = append(qs, inner.SendQueue(c17addr(i+1), t0.Add(time.Duration(i%50)*time.Millisecond)))
+		}
+		keep := inner.SendQueue(c17addr(n+1), t0.Add(900*time.Millisecond))
+		inner.removeExpired(t0.Add(1100*time.Millisecond), time.Second)
+		left := len(inner.byAge) - 1
+		open := 0
+		for _, q := range qs {
+			select {
+			case _, ok := <-q:
+				if ok {
+					open++
+				}
+			default:
+				open++
+			}
+		}
+		desc := fmt.Sprintf("%d clients last seen at 0..49 ms and one at 900 ms, timeout 1 s, one sweep at 1100 ms", n)
+		r.Case(fmt.Sprintf("cm/many-expire/n=%d", n), desc, true)
+		if left != 0 || open != 0 {
+			r.OracleFail("clientmap-expired-record-kept", desc, fmt.Sprintf("%d expired records left in the map, %d of their queues still open", left, open),
+				"every record idle for the full timeout is discarded and its queue closed at the next sweep")
+		}
+		select {
+		case _, ok := <-keep:
+			if !ok {
+				r.OracleFail("clientmap-discarded-before-full-timeout", desc, "the record seen 200 ms before the sweep was discarded", "")
+			}
+		default:
+		}
+	}
+}
+
 func TestVerifC17(t *testing.T) {
 	r := vh.Start("C17")
 	defer r.Finish()
 	rng := r.Rng
 	c17RealClock(r)
+	c17AfterClose(r)
+	c17ManyExpire(r)
 	r.Note("error channel capacities read from the source by the model: %s", r.Model("c17 caps"))
 
 	for i := 0; i < r.N(400, 8000); i++ {
